@@ -12,7 +12,7 @@ m = {
     "setup_cmd": "./check --setup",
     "hooks": {"guard": "MPSERVICE_VERIF",
               "enable": "checks run the implementation with MPSERVICE_VERIF=1 and PYTHONPATH=/repo/src (no build step; pure Python)",
-              "baseline_off_cmd": "env -u MPSERVICE_VERIF " + BASE.replace("cd /repo && ", "sh -c 'cd /repo && ") + "'",
+              "baseline_off_cmd": BASE.replace("/venv/bin/python", "env -u MPSERVICE_VERIF /venv/bin/python"),
               "source_commits": [], "add_only": True},
     "engines": [{"name": "coq-proof+correspondence", "path": "check",
                  "serves_properties": sorted(CHECKS),
